@@ -140,6 +140,23 @@ def run(prog, rep, tier):
         eff = rng_rules(rep, prog, f, unseeded_live=f.qname in UNSEEDED_LIVE)
         total += len(eff or [])
         args_intact(rep, prog, O, f)
+    # the library's own noise distributions must draw from the stream that ANM.sample reseeds: numpy's global one
+    from .closures import factory_closure
+    from .. import api
+    n_fact = 0
+    for f in sorted((g for g in prog.funcs.values() if g.module.name == "sempler.noise" and not g.name.startswith("_") and g.cls is None), key=lambda g: g.qname):
+        try:
+            S_, f_, clo, res, facts = factory_closure(prog, f.qname)
+        except Inconclusive:
+            continue            # not a factory of callables
+        n_fact += 1
+        gens = [c for c in facts if c.kind == "call" and c.callkind == "method" and c.target.lstrip(".") in api.GENERATOR_DRAWS]
+        if gens:
+            rep.bad("R6.library-noise", fwhere(f, gens[0].node), "noise.%s draws from a generator object of its own (%s): ANM.sample(random_state=...) reseeds numpy's global "
+                    "stream, which this draw never reads - seeded sampling with this noise is not reproducible" % (f.name, fmt(gens[0].recv)[:50]))
+        else:
+            rep.ok("R6.library-noise", fwhere(f), "noise.%s draws from numpy's global stream only" % f.name)
+    rep.require_count("R6.library-noise", 4)
     rep.analysed["rng.apis"] = sorted(have)
     rep.analysed["rng.effects"] = total
     rep.require_count("RNG.api", 10)
